@@ -118,6 +118,33 @@ CHECKS = [
         "note": "Encoding + z3 backend under test; loops outside the quantifier.",
     },
     {
+        "id": "C05",
+        "engine": "E1-enumerator",
+        "category": "exploration",
+        "technique": "bounded-exhaustive enumeration of all small graphs/grids x all patterns, each decided on the real encoding (+z3 backend) against a plain graph-algorithm oracle",
+        "text": "All labelled graphs n<=4 (5) and grids <=6 (8) cells x num_regions 1..3 (4) x ALL labelings x roots lists x allow_empty_group x both encodings x division as IntArray1D / list / IntArray2D / literals, each labeling one find_answer against the class-connectivity oracle.",
+        "design_ref": "DESIGN.md section 2, C05",
+        "note": "Encoding + z3 backend under test; native route via R-native; labels inside 0..num_regions-1 is the property's premise.",
+    },
+    {
+        "id": "C07",
+        "engine": "E1-enumerator",
+        "category": "exploration",
+        "technique": "bounded-exhaustive enumeration of all small graphs/grids x all patterns, each decided on the real encoding (+z3 backend) against a plain graph-algorithm oracle",
+        "text": "Without borders: all graphs n<=4 (5) and grids, ALL set partitions imposed on the returned ids, all group_size forms; with borders: ALL 2^m border patterns on all graphs n<=4 and inner grid frames <=6 (8) cells, native graph-division operator off/on/by config.",
+        "design_ref": "DESIGN.md section 2, C07",
+        "note": "Encoding + z3 backend under test; native graph-division via R-native with a sound block-size lemma (mc/native_backend.py).",
+    },
+    {
+        "id": "C10",
+        "engine": "E1-enumerator",
+        "category": "exploration",
+        "technique": "bounded-exhaustive enumeration of all small graphs/grids x all patterns, each decided on the real encoding (+z3 backend) against a plain graph-algorithm oracle",
+        "text": "All BoolGridFrame sizes up to 12 (17) segments x ALL segment subsets x single_cycle off/on/alias x encodings; admitted subsets additionally force both returned arrays.",
+        "design_ref": "DESIGN.md section 2, C10",
+        "note": "Frames of 3x3 and larger rest on the small-scope argument.",
+    },
+    {
         "id": "C13",
         "engine": "E1-enumerator",
         "category": "exploration",
